@@ -191,9 +191,6 @@ func llmnrScenarios(c *vf.Ctx, B int) []*scenario {
 	names := []string{"hostx", "hosty", "hostz"}
 	for _, nc := range []int{2, 3} {
 		nc := nc
-		if nc == 3 && c.Quick() {
-			continue
-		}
 		out = append(out, &scenario{name: fmt.Sprintf("llmnr-server-%dclients", nc), keys: lKeys, bound: B, body: func(x *exec) {
 			srv, hs, serr := startLServer(x, []llmnr.Handler{answerHandler(x)})
 			vrt.Op(func() bool { return srv.Conn != nil || hs.Done() }, 0, "wait-listen")
@@ -211,6 +208,31 @@ func llmnrScenarios(c *vf.Ctx, B int) []*scenario {
 			for i := 0; i < nc; i++ {
 				checkL(x, "client-"+names[i], uint16(0x0a0a*(i+1)), names[i], "tok-"+names[i], res[i], true)
 			}
+			closeLServer(x, srv, hs, serr)
+		}})
+	}
+	// the library's own packet-describing handler behind the answering handler: they serialise on the
+	// logger's lock; a header-only query (all counts 0), an ordinary query and a second ordinary query
+	for _, hn := range []string{"HandlerDescribePacket"} {
+		hn := hn
+		out = append(out, &scenario{name: "llmnr-server-" + hn, keys: lKeys, bound: B, body: func(x *exec) {
+			var dh llmnr.Handler = llmnr.HandlerFunc(llmnr.HandlerDescribePacket)
+			if hn == "HandlerDescribePacketJson" {
+				dh = llmnr.HandlerFunc(llmnr.HandlerDescribePacketJson)
+			}
+			srv, hs, serr := startLServer(x, []llmnr.Handler{answerHandler(x), dh}) // the describing handlers end the chain (return false)
+			vrt.Op(func() bool { return srv.Conn != nil || hs.Done() }, 0, "wait-listen")
+			hdrOnly := []byte{0x33, 0x33, 0, 0, 0, 0, 0, 0, 0, 0, 0, 0}
+			var r0, r1, r2 []lresp
+			t0 := vrt.GoNamed("client-header-only", func() { r0 = lExchange(hdrOnly) })
+			vrt.Join(t0)
+			t1 := vrt.GoNamed("client-hostx", func() { r1 = lExchange(mkLQuery(0x0a0a, "hostx", "tok-x")) })
+			t2 := vrt.GoNamed("client-hosty", func() { r2 = lExchange(mkLQuery(0x1414, "hosty", "tok-y")) })
+			vrt.Join(t1)
+			vrt.Join(t2)
+			x.obs("header-only client got %v", r0)
+			checkL(x, "client-hostx", 0x0a0a, "hostx", "tok-x", r1, true)
+			checkL(x, "client-hosty", 0x1414, "hosty", "tok-y", r2, true)
 			closeLServer(x, srv, hs, serr)
 		}})
 	}
